@@ -125,6 +125,9 @@ def families(tier):
             out.append(dict(prop='C08', family='c08.timeout_parallel_child', id=f'c08/tmo-par-c{cb}-c{tc}-o{"".join(order)}', cfg=dict(cfg, window=1.2, max_targets=3),
                             params=dict(shape='timeout_parallel', awaiter='handler'),
                             scn=dict(buses={b: dict(parallel=(b == cb)) for b in names}, order=order, handlers=hs, main=main, actors=[], forwards=[], settle=3.0)))
+    # the grammar-generated corpus shared by the bus properties (vsched/gen.py), judged by this property's oracle
+    from .. import gen
+    out += gen.family('C08', tier, params=dict(shape='gen', awaiter='handler'), timeouts=(None, 0.5))
     return out
 
 
